@@ -161,6 +161,14 @@ Section Dijkstra.
     (e_chan e =? e_chan o) && (e_from e =? e_from o) && (e_to e =? e_to o) &&
     (e_base e =? e_base o) && (e_rate e =? e_rate o) && (e_delta o <=? e_delta e).
 
+  (* edge_ok without the ignore sets (those are the probability source's
+     business: processEdge drops the candidate when it answers 0) *)
+  Definition usable_b (o : edge) (a : Z) : bool :=
+    in_range o a &&
+    (if e_from o =? self en
+     then out_chan_ok rs o && bw_ok en o a
+     else negb (e_disabled o)).
+
   (* What newNodeEdgeUnifier + getEdge establish for the unified edge [e] they
      hand to processEdge while [pv] is the pivot (C19_get_edge_sound): it is
      the graph policy [o] of that channel direction, possibly with a larger
@@ -170,7 +178,7 @@ Section Dijkstra.
     match find_edge g (e_chan e) (e_from e) (e_to e) with
     | None => false
     | Some o =>
-      syn_b o e && edge_ok en rs o (r_send (d_e pv) e) &&
+      syn_b o e && usable_b o (r_send (d_e pv) e) &&
       match d_next pv with
       | None =>
         (e_ibase e =? 0) && (e_irate e =? 0) &&
